@@ -19,7 +19,7 @@ from harness.common import Report, run_tlc, subdir, pmap
 from harness.parsepipe import with_timeout, Timeout
 
 PROP = "C19"
-CAP = 8     # above the explored depth: the process-wide cap on open-ended repetitions (a generation limit) never binds
+CAP = 10    # above the explored depth: the process-wide cap on open-ended repetitions (a generation limit) never binds
 
 PARTIES = '''
 class A(FandangoParty):
@@ -237,20 +237,26 @@ def run(tier, seed):
     gs = {}
     for name, mk, types in FIXED:
         gs[len(gs) + 1] = assign_ids({"start": "<start>", "rules": mk(), "types": types})
-    n = 60 if tier == "quick" else 600
+    n = 60 if tier == "quick" else 2500
     for k in range(n):
         gs[len(gs) + 1] = rand_protocol(rnd, three_parties=(k % 3 == 2))
     # pinned witness F40: after A>C:m1 B>A:m2 the grammar allows A>B:m2 and A>C:m2 (same sender and type, two recipients)
-    gs[9001] = dict(assign_ids({"start": "<start>", "types": ["m1", "m2"], "rules": {"<start>": gen.cat(
+    gs[90001] = dict(assign_ids({"start": "<start>", "types": ["m1", "m2"], "rules": {"<start>": gen.cat(
         msg("A", "C", "m1"), msg("B", "A", "m2"), gen.rep(msg("A", "B", "m2"), 0, 1), msg("A", "C", "m2"))}}), pinned="F40")
-    maxd = 5 if tier == "quick" else 6
+    # pinned witness F42: the history A>B:m1 B>A:m2 is a full interaction, but read by type names it is also a prefix of
+    # m1 (A>B:)m2 ..., and the only complete derivation the parser delivers is that one
+    gs[90002] = dict(assign_ids({"start": "<start>", "types": ["m1", "m2", "m3", "m4", "m5"], "rules": {
+        "<start>": gen.cat(gen.cat(msg("A", "B", "m1"), gen.rep(gen.rep(msg("B", "A", "m2"), 1, 2), 0, gen.INF), gen.rep(msg("A", "B", "m2"), 0, 2)),
+                           gen.rep(gen.nt("<sess>"), 0, 2)),
+        "<sess>": gen.cat(msg("A", "B", "m3"), gen.rep(msg("A", "B", "m4"), 0, 2), msg("A", "B", "m5"))}}), pinned="F42")
+    maxd = 5 if tier == "quick" else 7
     # the same protocols sliced to the fuzzer-side party (every third one), gid + 1000
     sliced = {}
     for gid, g in sorted(gs.items()):
         if gid % 3 == 0:
-            sliced[gid + 1000] = dict(g, keep=["A"])
+            sliced[gid + 100000] = dict(g, keep=["A"])
         if gid % 4 == 1:
-            sliced[gid + 2000] = dict(g, keep=["B"])
+            sliced[gid + 200000] = dict(g, keep=["B"])
     path = os.path.join(subdir("c19"), "protocols.json")
     json.dump([{"gid": gid, "start": g["start"], "rules": g["rules"], "keep": g.get("keep", [])}
                for gid, g in sorted(list(gs.items()) + list(sliced.items()))], open(path, "w"))
@@ -270,9 +276,17 @@ def run(tier, seed):
             if m.group(3) == "TRUE":
                 complete[gid].add(h)
     jobs = []
+    ambiguous = 0
     for gid, g in sorted(gs.items()):
         if g.get("keep") and not prefixes[gid]:
             continue        # the slice deletes the start symbol: no protocol is left (the model has no initial state for it)
+        # type-ambiguous protocols: two viable histories that spell the same sequence of message TYPES with different
+        # parties.  The forecaster re-parses the history by type names and its parser does not deliver every derivation
+        # (recorded finding F42, pinned below), so such protocols are outside the walked family.
+        type_of = {v: k[2] for k, v in g["ids"].items()}
+        if not g.get("pinned") and len({tuple(type_of[i] for i in h) for h in prefixes[gid]}) < len(prefixes[gid]):
+            ambiguous += 1
+            continue
         nxt = collections.defaultdict(set)
         for h in prefixes[gid]:
             if h:
@@ -285,10 +299,15 @@ def run(tier, seed):
             if viol:
                 rep.violation("witness:F40:two-recipients", "pinned witness: " + viol[0][1], viol[0][2])
             continue
+        if "<A:B:m1> (<B:A:m2>{1,2})* <A:B:m2>{0,2}" in job[0]:
+            if viol:
+                rep.violation("witness:F42:type-ambiguous-history", "pinned witness: " + viol[0][1], viol[0][2])
+            continue
         for v in viol:
             rep.violation(*v)
     if total < 300:
         raise common.Machinery("only %d histories walked" % total)
+    rep.add(type_ambiguous_protocols_not_walked=ambiguous)
     rep.add(traces_validated_against_impl=total, protocols=len(gs), sliced_protocols=len(sliced), viable_prefixes=sum(len(v) for v in prefixes.values()),
             rule="every viable message history up to depth %d of %d protocol grammars (TLC state graph), walked in lock-step through "
                  "the real PacketForecaster (history trees built by mounting real messages)" % (maxd, len(gs)))
